@@ -6,7 +6,7 @@ THEOREM_NOTE = ("Props/C09.lean: after force-quit no handler call is ever added 
                 "exit request drops every pending instruction of every nesting depth up to run()'s own catcher, the quit callback is logged at most once with the registered "
                 "argument; a run that returned contains an exit or force-quit event; run() refuses an empty stack unless configured otherwise")
 ASSUMPTIONS = ASSUME_SESSION
-RULE = ("loop and app programs with the stop request (raise ExitMainLoop, force_quit, close of the outermost loop, last screen closed, quit key) at every depth <= 5 and position, "
+RULE = ("[thorough tier adds the small-scope exhaustive enumeration of harness/gen/exhaustive.py: every loop program with a <= 2-action and a <= 1-action handler over a 10-action alphabet, 3 663 programs] loop and app programs with the stop request (raise ExitMainLoop, force_quit, close of the outermost loop, last screen closed, quit key) at every depth <= 5 and position, "
         "arbitrary pending content, further enqueues after force-quit; oracle: no handler invocation after the stop request, quit callback count and argument, run() returned "
         "only with a stop cause, NothingScheduledError exactly when the stack is empty and not configured otherwise; non-trivial = a stop request with handlers pending")
 
@@ -50,6 +50,9 @@ def generate(rnd, tier):
     sid = SidCounter()
     cases = [gen_c09(rnd, sid) for _ in range(n)] + [gen_c09_modal_last(rnd, sid) for _ in range(n // 3)] + [gen_case(rnd, "loop", sid) for _ in range(n // 2)] + [gen_case(rnd, "app", sid) for _ in range(n // 3)] + \
             [gen_case(rnd, "tame", sid) for _ in range(n // 5)]
+    if tier == "thorough":
+        from harness.gen.exhaustive import loop_programs
+        cases += list(loop_programs(sid))          # small-scope exhaustive: 3 663 programs
     return [with_cc(c) for c in cases]
 
 
